@@ -94,6 +94,8 @@ def _ops():
         "get_ancestry": lambda r: pick(r, 7).get_ancestry(),
         "child_index": lambda r: r.child_index(pick(r, 8)),
         "child_insert_index": lambda r: rule_for(r).child_insert_index(r, G_candidate(r)),
+        "child_insert_index_first_attached": lambda r: rule_for(r).child_insert_index(r, r.children[0]) if r.children else None,
+        "child_insert_index_last_attached": lambda r: rule_for(r).child_insert_index(r, r.children[-1]) if r.children else None,
         "is_allowed_child": lambda r: rule_for(r).is_allowed_child(first_name(r)),
         "is_equal": lambda r: Node.is_equal(pick(r, 9), pick(r, 10)),
         "is_equal_copy": lambda r: Node.is_equal(r, G_copy(r)),
